@@ -388,6 +388,46 @@ def scenario_clients_come_and_go(s, seed):
     return {"bad": bad, "log": log}
 
 
+def peers_impl(ops):
+    """H1: the real _SocketManager.add_incoming_connection / remove_peer_connection on stand-in sockets."""
+    import qmi.core.messaging as M
+
+    class Loop:
+        def add_reader(self, fd, cb):
+            pass
+
+        def remove_reader(self, fd):
+            pass
+
+    class R(_Router):
+        def notify_peer_context_removed(self, n):
+            pass
+
+        def notify_peer_context_added(self, n):
+            pass
+    sm = M._SocketManager(Loop(), R("srv"))
+    conns = {}
+    for o in ops:
+        if o[0] == "connect":
+            before = set(sm._peer_context_map)
+            sm.add_incoming_connection(_Sock())
+            new = [a for a in sm._peer_context_map if a not in before]
+            if len(new) == 1:
+                conns[new[0]] = o[1]
+                sm._peer_context_map[new[0]]._cid = o[1]
+            else:
+                # an alias was re-used: the entry of a live connection was overwritten
+                for a, c in sm._peer_context_map.items():
+                    if not hasattr(c, "_cid"):
+                        c._cid = o[1]
+        else:
+            c = sm._peer_context_map.get("$client_%d" % o[1])
+            if c is not None:
+                sm.remove_peer_connection(c)
+                c.close()
+    return [(int(a.split("_")[1]), getattr(c, "_cid", -1)) for a, c in sm._peer_context_map.items()], len(sm._socket_wrappers)
+
+
 def run(ck):
     ck.level = "proof"
     ck.theory_dir = THEORY
@@ -429,6 +469,34 @@ def run(ck):
         ck.report("corr:hop", "address rewriting of a real hop differs from the Coq model: %s" % ck.model_eval("C02.Corr", "model_out %s" % terms[i])[:200],
                   {"hop": metas[i][0], "payload": metas[i][1], "impl": repr(metas[i][2]), "why": metas[i][3],
                    "broken": "correspondence C02.Corr.check_case"}, found_input=False)
+    # ---- part A2: table of incoming peers
+    pterms, pmetas = [], []
+    for i in range(300 if ck.tier == "quick" else 5000):
+        ops, live, n, cid = [], [], 0, 100
+        for _ in range(ck.rng.randint(1, 12)):
+            if live and ck.rng.random() < 0.45:
+                a = ck.rng.choice(live + [ck.rng.randint(1, n + 1)])
+                ops.append(("disconnect", a))
+                if a in live:
+                    live.remove(a)
+            else:
+                n += 1
+                cid += 1
+                live.append(n)
+                ops.append(("connect", cid))
+        table, nwrap = peers_impl(ops)
+        ck.note_case(("peers", tuple(ops)), True)
+        ck.count("peers:ops=%d" % min(len(ops), 12))
+        live_conns = [c for o, c in [(o[0], o[1]) for o in ops] if o == "connect"]
+        if len({a for a, _ in table}) != len(table) or nwrap != len(table):
+            ck.report("oracle:peers:table", "peer table inconsistent after %r: %r (%d socket wrappers)" % (ops, table, nwrap), {"peers_ops": ops})
+        pterms.append("(%s, %s)" % (clist(["PConnect %s" % cnat(o[1]) if o[0] == "connect" else "PDisconnect %s" % cnat(o[1]) for o in ops]),
+                                     clist(["(%s, %s)" % (cnat(a), cnat(c)) for a, c in table])))
+        pmetas.append((ops, table))
+    badp = ck.run_model("C02.Corr", "check_pcase", pterms, "pcase", shard=400)
+    for i in badp[:2]:
+        ck.report("corr:peers", "the real table of incoming peers differs from the Coq model after %r: %r" % pmetas[i],
+                  {"peers_ops": pmetas[i][0], "table": pmetas[i][1], "broken": "correspondence C02.Corr.check_pcase"}, found_input=True)
     # ---- part B
     nb, per = (16, 40) if ck.tier == "quick" else (160, 60)
     jobs = [(scenario_values, (ck.seed * 7919 + i, per), dict(strategy="fifo")) for i in range(nb)]
